@@ -275,6 +275,61 @@ def run (ext : Pipe.Ext) (l : ObsList) : List Job → Except E (ObsList × List 
       | .error e => .error e
       | .ok (l2, os) => .ok (l2, o :: os)
 
+/-! ### round 5: the PROCESS — several comparers, and everything else that outlives a job
+
+One interpreter runs many `compare` / `add` / `remove` calls, of files of every format, on one or several
+`ContentComparer`s.  What a call can see of the calls before it is
+
+* the observers of ITS comparer (`ObsList`, threaded by `run` above), and
+* whatever lives on classes and modules: class attributes of `Entry` and of the entity classes of the formats, module
+  globals of the parsers, caches.
+
+At the pinned commit the second kind is EMPTY as far as `compare` / `add` / `remove` are concerned: `Entry.re_br`, `Entry.re_sgml`,
+`PropertiesEntityMixin.escape` / `known_escapes`, `po.escapes` are constants, `count_words()` / `val` / `equals` are recomputed from
+the entity on every call, `AddRemove` is created per comparison.  (`Junk.junkid` only names junk keys; the harness resets it
+before every job and the text-level model starts every job at 0 — an input, as before.)  The component is nevertheless an
+explicit field of the state, with no content: the transition function takes it in and hands it out untouched, which is
+exactly the claim "no process-wide memo" that `C03.job_result_history_free` rests on.  A memo in the code
+(`Entry._word_counts[(key, raw_val)]`, a cached `val`, cached `equals` results, an order map kept on the comparer) makes the
+real `count_words` / `equals` / `AddRemove` of a LATER job differ from this transition function — a correspondence
+disagreement of `c03.proc` and a failing cross-format history of the oracle. -/
+
+/-- process-wide state read or written by the comparison methods besides the comparer's observers: nothing -/
+inductive ProcMemo
+  | empty
+  deriving DecidableEq, Repr, Inhabited
+
+structure Proc where
+  memo : ProcMemo := .empty
+  /-- the live `ContentComparer`s, each one its `ObserverList` -/
+  comparers : List ObsList
+
+/-- a fresh interpreter in which `ContentComparer(quiet)` was created and the project observers `Observer(quiet, filter)`
+    appended, once per entry -/
+def Proc.fresh (cfgs : List (Nat × List (Option Filter))) : Proc :=
+  { comparers := cfgs.map (fun c => ObsList.init c.1 (c.2.map (Obs.init c.1))) }
+
+/-- one call on comparer number `c` (`IndexError` if there is none): the memo goes in and comes out, the method neither
+    reads nor writes it; the other comparers are untouched -/
+def Proc.step (ext : Pipe.Ext) (p : Proc) (c : Nat) (j : Job) : Except E (Proc × Merge.Outcome) :=
+  match p.comparers[c]? with
+  | none => .error .indexError
+  | some l =>
+    match runJob ext l j with
+    | .error e => .error e
+    | .ok (l', o) => .ok ({ memo := p.memo, comparers := p.comparers.set c l' }, o)
+
+/-- a history of calls in one process, in call order -/
+def Proc.run (ext : Pipe.Ext) (p : Proc) : List (Nat × Job) → Except E (Proc × List Merge.Outcome)
+  | [] => .ok (p, [])
+  | (c, j) :: rest =>
+    match Proc.step ext p c j with
+    | .error e => .error e
+    | .ok (p1, o) =>
+      match Proc.run ext p1 rest with
+      | .error e => .error e
+      | .ok (p2, os) => .ok (p2, o :: os)
+
 /-! ### filters of the project observers, as rule lists (first match wins, "error" otherwise) -/
 
 structure Rule where
